@@ -440,6 +440,30 @@ def c09(lines, out):
                 S(t[1])[kd].pop(key, None)
             elif key in S(t[1])[kd] and S(t[1])[kd][key] != 'o' and res not in ('-11', '-13', '-1'):
                 v.append(('present_key', '%s on a present key failed with %s' % (r.op, res)))
+        # signal / pid / path / threshold sources: the same keyed-set behaviour, keyed by the identifying value
+        if t[0] in ('reg_sgn', 'reg_pid', 'reg_path', 'reg_thr', 'dereg_sgn', 'dereg_pid', 'dereg_path', 'dereg_thr') and t[1] in tr.reg:
+            kd = t[0].split('_')[1]
+            isreg = t[0].startswith('reg_')
+            key = (t[2], t[3]) if kd == 'thr' else t[2]
+            fl = (t[4] if kd == 'thr' else t[3]) if isreg else ''
+            valid = (key != ('0', '0')) if kd == 'thr' else (key != '0')
+            st = S(t[1]).setdefault(kd, {})
+            if not valid:
+                if not neg(res): v.append(('bad_params', '%s (invalid parameters) returned %s' % (r.op, res)))
+            elif isreg:
+                if res == '0':
+                    if key in st: v.append(('dup_key', '%s succeeded although the key is registered' % r.op))
+                    st[key] = 'o' if 'o' in fl else '-'
+                elif key in st and res not in ('-17', '-11', '-13', '-1', '-22'):
+                    v.append(('dup_key', '%s on a present key returned %s' % (r.op, res)))
+                elif key not in st and res == '-17':
+                    v.append(('new_key', '%s: the key is not registered, yet the call was refused with EEXIST' % r.op))
+            else:
+                if res == '0':
+                    if key not in st: v.append(('absent_key', '%s succeeded although the key is absent' % r.op))
+                    st.pop(key, None)
+                elif key in st and res not in ('-11', '-13', '-1'):
+                    v.append(('present_key', '%s on a present key failed with %s' % (r.op, res)))
         if t[0] == 'sub' and res == '0': S(t[1])['sub'][t[2]] = t[4]
         if t[0] == 'unsub' and res == '0':
             if t[2] not in S(t[1])['sub']:
@@ -456,9 +480,9 @@ def c09(lines, out):
                 del last[h]; sets.pop(h, None)
         if t[0] == 'srclen' and int(res) >= 0:
             s = S(t[1])
-            exp = len(s['fd']) + len(s['tmr']) + len(s['sub'])
+            exp = sum(len(x) for x in s.values())
             # one-shot subscriptions may have been consumed: accept the range
-            lo = exp - sum(1 for x in s['sub'].values() if x == '1') - sum(1 for k in ('fd', 'tmr') for x in s[k].values() if x == 'o')
+            lo = exp - sum(1 for x in s['sub'].values() if x == '1') - sum(1 for k in s if k != 'sub' for x in s[k].values() if x == 'o')
             if not (lo <= int(res) <= exp):
                 v.append(('count', '%s returned %s, the registered sets hold %d' % (r.op, res, exp)))
     return v
